@@ -157,6 +157,11 @@ var c02Wrappers = []c02Wrapper{
 		return fmt.Sprintf("cb%d = make(chan interface, 1)\ncb%d <- func() {\n%s\n}\napply(<- cb%d)", id, id, ind(c), id)
 	}},
 	{name: "callback-func-type", wrap: func(c string, id int) string { return fmt.Sprintf("apply(func() {\n%s\n})", ind(c)) }},
+	{name: "callback-error-result", wrap: func(c string, id int) string { return fmt.Sprintf("applyE(func() {\n%s\n})", ind(c)) }},
+	{name: "callback-error-result-ignored", wrap: func(c string, id int) string { return fmt.Sprintf("applyEI(func() {\n%s\n})", ind(c)) }},
+	{name: "callback-value-error-result", wrap: func(c string, id int) string {
+		return fmt.Sprintf("x = applyVE(func(a) {\n%s\n  return a, nil\n}, 1)", ind(c))
+	}},
 	{name: "callback-less", wrap: func(c string, id int) string {
 		return fmt.Sprintf("sortLike([2, 1], func(a, b) {\n%s\n  return true\n})", ind(c))
 	}},
@@ -253,13 +258,13 @@ func init() {
 	wk.Register(&wk.Engine{
 		ID: "C02",
 		Plan: func(tier string) fw.Plan {
-			nRand := 400
+			nRand, nCont := 400, 40
 			if tier == "thorough" {
-				nRand = 150000
+				nRand, nCont = 150000, 2500
 			}
 			return fw.Plan{
 				Level: "exploration",
-				Rule: "programs that never terminate by construction: a core (spinning: every loop form, for-in nested in a loop, unbounded recursion through 0/1/3/6-parameter, variadic and mutually recursive functions, tick-less loops; blocked: receive expression/statement with and without ok, send on unbuffered and full channels, range over an open channel, forwarding) under 0-3 wrappers (script function of arity 0/1/4/6/variadic/spread call, anonymous/member/module call, module body, go + blocked parent, try/catch/finally bodies, either side of ??, ternary arm, call argument, deferred callee (after return / after error / top level), switch, if/else, for-in, callbacks handed to Go func types), last or followed by further statements. Cancellation instant: synchronous (the k-th probe cancels, k swept) or asynchronous (a harness goroutine cancels after 0-3 ms at GOMAXPROCS 1/2/16). phase enum = every core x every single wrapper x both positions (complete); phase random = PRNG wrapper chains of length 0-3. Non-trivial = the program was running (>= 1 probe event or a blocked core) when the cancel landed; distinct = (program, mode, k).",
+				Rule: "programs that never terminate by construction: a core (spinning: every loop form, for-in nested in a loop, unbounded recursion through 0/1/3/6-parameter, variadic and mutually recursive functions, tick-less loops; blocked: receive expression/statement with and without ok, send on unbuffered and full channels, range over an open channel, forwarding) under 0-3 wrappers (script function of arity 0/1/4/6/variadic/spread call, anonymous/member/module call, module body, go + blocked parent, try/catch/finally bodies, either side of ??, ternary arm, call argument, deferred callee (after return / after error / top level), switch, if/else, for-in, callbacks handed to Go func types with and without an error result), last or followed by further statements. phase contended = a script consuming a buffered channel (range / receive statement / receive with ok, at top level or in a function) while host goroutines take values from the same channel and a host producer feeds it; when the feed has stopped and the buffer is empty the context is cancelled (150 trials per case; only the last values fed matter, so feeds are short; channel capacity, number of competing consumers and feed length from the PRNG). Cancellation instant: synchronous (the k-th probe cancels, k swept) or asynchronous (a harness goroutine cancels after 0-3 ms at GOMAXPROCS 1/2/16). phase enum = every core x every single wrapper x both positions (complete); phase random = PRNG wrapper chains of length 0-3. Non-trivial = the program was running (>= 1 probe event or a blocked core) when the cancel landed; distinct = (program, mode, k).",
 				Assumptions: []string{"the error must carry the text \"execution interrupted\" (vm.ErrInterrupt or a *vm.Error wrapping it)",
 					"after cancel() returned, at most 2*(ticks per cycle)+goroutines+2 further probe events are tolerated (the expression in progress may finish)",
 					"a call that has not returned is judged from two goroutine-state samples and the process CPU time consumed since the cancel; a wall-clock expiry alone is inconclusive",
@@ -267,11 +272,16 @@ func init() {
 				Phases: []fw.Phase{
 					{Name: "enum", Cases: len(fixed) + len(enum), Chunk: 40, Exhaust: true, TimeoutS: 900, Jobs: 8},
 					{Name: "random", Cases: nRand, Chunk: 40, TimeoutS: 900, Jobs: 8},
+					{Name: "contended", Cases: nCont, Chunk: 5, TimeoutS: 900, Jobs: 4},
 				},
 			}
 		},
 		Run: func(c *wk.Case) {
 			var cc c02Case
+			if c.Phase == "contended" {
+				c02Contended(c)
+				return
+			}
 			if c.Phase == "enum" {
 				if c.Index < len(fixed) {
 					cc = fixed[c.Index]
@@ -337,6 +347,9 @@ func c02Run(c *wk.Case, cc c02Case, delay time.Duration) {
 	e.Define("tickI", func() int64 { tick(); return 0 })
 	e.Define("ident", func(a interface{}) interface{} { return a })
 	e.Define("apply", func(f func()) { f() })
+	e.Define("applyE", func(f func() error) error { return f() })
+	e.Define("applyEI", func(f func() error) { _ = f() })
+	e.Define("applyVE", func(f func(int64) (interface{}, error), n int64) interface{} { v, _ := f(n); return v })
 	e.Define("sortLike", func(l []interface{}, less func(a, b interface{}) bool) {
 		if len(l) >= 2 {
 			less(l[0], l[1])
@@ -508,4 +521,109 @@ func c02Classify(dump string) string {
 		}
 	}
 	return "not-found"
+}
+
+var c02ContendedForms = []string{
+	"for v in ch { tick() }",
+	"func w() { for v in ch { tick() } }\nw()",
+	"for { v = <- ch; tick() }",
+	"for { v, ok = <- ch; tick() }",
+	"for { tick(); <- ch }",
+	"go func() { for v in ch { tick() } }()\nfor v in ch { tick() }",
+}
+
+// c02Contended: the script's channel operations compete with other consumers
+// of the same buffered channel; after the feed stops the script is blocked and
+// the cancellation must still end the call.
+func c02Contended(c *wk.Case) {
+	old := runtime.GOMAXPROCS([]int{2, 4, 16}[c.Rng.Intn(3)])
+	defer runtime.GOMAXPROCS(old)
+	for trial := 0; trial < 150; trial++ {
+		form := c02ContendedForms[c.Rng.Intn(len(c02ContendedForms))]
+		capN, stealers, feed := 1+c.Rng.Intn(3), 1+c.Rng.Intn(2), 2+c.Rng.Intn(14)
+		desc := fmt.Sprintf("contended<%s>:cap%d:stealers%d", form, capN, stealers)
+		input := map[string]interface{}{"program": form, "case": desc, "feed": feed}
+		c.Begin(input)
+		base := runtime.NumGoroutine()
+		ch := make(chan int64, capN)
+		var ticks int64
+		e := ank.NewCoreEnv()
+		e.Define("ch", ch)
+		e.Define("tick", func() { atomic.AddInt64(&ticks, 1) })
+		ctx, cancel := context.WithCancel(context.Background())
+		var o ank.Out
+		done := make(chan struct{})
+		go func() {
+			o = c02Exec(ctx, e, form)
+			close(done)
+		}()
+		stop := make(chan struct{})
+		var wg sync.WaitGroup
+		for i := 0; i < stealers; i++ {
+			wg.Add(1)
+			go func() {
+				defer wg.Done()
+				for {
+					select {
+					case <-stop:
+						return
+					case <-ch:
+					default:
+						runtime.Gosched()
+					}
+				}
+			}()
+		}
+		ended := false
+		for i := 0; i < feed && !ended; i++ {
+			select {
+			case ch <- int64(i):
+			case <-done:
+				ended = true
+			}
+		}
+		for i := 0; len(ch) > 0 && i < 1000000; i++ {
+			runtime.Gosched()
+		}
+		close(stop)
+		wg.Wait()
+		cancel()
+		cpu0 := procCPU()
+		returned := false
+		select {
+		case <-done:
+			returned = true
+		case <-time.After(3 * time.Second):
+		}
+		c.Eval(desc, !ended)
+		c.Events(int(atomic.LoadInt64(&ticks)))
+		c.Tag("core:range-chan-contended", "mode:async")
+		if !returned {
+			s1 := c02Stacks()
+			time.Sleep(300 * time.Millisecond)
+			s2 := c02Stacks()
+			st1, st2 := c02Classify(s1), c02Classify(s2)
+			detail := fmt.Sprintf("the call had not returned 3 s after cancel() returned, with the channel empty and nothing sending; interpreter goroutine state: %s / %s; process CPU since cancel: %.2f s", st1, st2, procCPU()-cpu0)
+			if st1 == "parked-in-vm" && st2 == "parked-in-vm" {
+				c.Violation("not-stopped:blocked:parked-in-vm:contended-channel", detail, input)
+			} else {
+				c.Inconclusive("no-return-unclassified", detail, input)
+			}
+			close(ch)
+			c.Bail()
+			return
+		}
+		if o.Panicked {
+			c.Violation(o.PanicSig, "panic: "+o.PanicVal, input)
+			return
+		}
+		if et := ank.ErrText(o.Err); et != "execution interrupted" {
+			c.Violation("swallowed:blocked:contended-channel", fmt.Sprintf("after the cancel the call returned error %q instead of \"execution interrupted\"", et), input)
+			return
+		}
+		// script goroutines of this trial see the cancellation too
+		for i := 0; i < 200 && runtime.NumGoroutine() > base; i++ {
+			time.Sleep(200 * time.Microsecond)
+		}
+	}
 }
